@@ -866,7 +866,9 @@ fn main() {
             replay_file(&mut env, f);
         }
     }
-    if args.u64("only-replay", 0) == 0 {
+    // `--stress-only 1`: only the free-running cases (used for the async-std backend, package hcoreas)
+    let stress_only = args.u64("stress-only", 0) != 0;
+    if args.u64("only-replay", 0) == 0 && !stress_only {
         // fixed cases first: the shape of `drain_defers_marker_for_reentrant_admitted_send`
         // and a sender overtaken by the drain between its status check and its admission
         let fixed: Vec<Vec<Vec<Op>>> = vec![
